@@ -231,12 +231,6 @@ Fixpoint unique_from (a : T) (l : list T) : list T :=
   end.
 Definition unique_list (l : list T) : list T :=
   match l with [] => [] | a :: r => a :: unique_from a r end.
-Fixpoint list_eqb (l1 l2 : list T) : bool :=
-  match l1, l2 with
-  | [], [] => true
-  | a :: r1, b :: r2 => neqb Ops a b && list_eqb r1 r2
-  | _, _ => false
-  end.
 Definition construct2_table (data : list (list T)) (x_dim y_dim f_dim : T) : res itab2 :=
   rbind (split_rows3 data) (fun c =>
     let xc := fst (fst c) in let yc := snd (fst c) in let fc := snd c in
@@ -245,8 +239,9 @@ Definition construct2_table (data : list (list T)) (x_dim y_dim f_dim : T) : res
     let Nx := length x in let Ny := length y in
     if negb (Nat.eqb (Nx * Ny) (length data)) then Exit           (* "List lenghts do not fit." *)
     (* row i_x * N_y + i_y must carry (x[i_x], y[i_y]), otherwise "Data table was not in right format." *)
-    else if negb (list_eqb (flat_map (fun xi => repeat xi Ny) x) xc
-                  && list_eqb (concat (repeat y Nx)) yc) then Exit
+    else if negb (forallb (fun ix => forallb (fun iy =>
+                    neqb Ops (xat x ix) (xat xc (ix * Ny + iy)) && neqb Ops (xat y iy) (xat yc (ix * Ny + iy)))
+                  (seq 0 Ny)) (seq 0 Nx)) then Exit
     else
       let f := map (fun ix => map (fun iy => xat fc (ix * Ny + iy)) (seq 0 Ny)) (seq 0 Nx) in
       construct2 x y f x_dim y_dim f_dim).
